@@ -173,7 +173,7 @@ func (na *NilAn) paramNeeds(g *ssa.Function, k int, depth int) bool {
 		return false // in progress
 	}
 	na.needMemo[key] = 3
-	p := g.Params[k]
+	p := paramAt(g, k)
 	res := false
 	var visit func(v ssa.Value, seen map[ssa.Value]bool)
 	visit = func(v ssa.Value, seen map[ssa.Value]bool) {
